@@ -123,3 +123,42 @@ func VerifC28_MultipartOrder() {
 		rt.Assert(good, "parts-assembled-in-part-number-order")
 	}
 }
+
+// C28 (assembly): the completed object is the concatenation of the parts: every chunk of every part
+// lands at (sum of the sizes of the earlier parts) + (its offset inside its part), with its size.
+func VerifC28_MultipartAssemble() {
+	s3a := &S3ApiServer{option: &S3ApiServerOption{Filer: "f:8888", BucketsPath: "/buckets"}, iam: &IdentityAccessManagement{}}
+	verifUploadUrls, verifMade = nil, nil
+	nparts := rt.Len("parts", 1, rt.Param("parts", 3))
+	type want struct {
+		fid    string
+		offset int64
+		size   uint64
+	}
+	var wants []want
+	verifListing = nil
+	partStart := int64(0)
+	for p := 0; p < nparts; p++ {
+		e := &filer_pb.Entry{Name: "000" + string(rune('1'+p)) + ".part"}
+		inPart := int64(0)
+		for c, nc := 0, rt.Len("chunks", 0, rt.Param("chunksperpart", 3)); c < nc; c++ {
+			size := uint64(rt.U16("size"))
+			fid := "3,0" + string(rune('1'+p)) + string(rune('1'+c))
+			e.Chunks = append(e.Chunks, &filer_pb.FileChunk{FileId: fid, Offset: inPart, Size: size, Mtime: 7})
+			wants = append(wants, want{fid, partStart + inPart, size})
+			inPart += int64(size)
+		}
+		partStart += inPart
+		verifListing = append(verifListing, e)
+	}
+	// entries that are not parts must be ignored
+	verifListing = append(verifListing, &filer_pb.Entry{Name: "junk", Chunks: []*filer_pb.FileChunk{{FileId: "9,09", Size: 5}}})
+	_, code := s3a.completeMultipartUpload(&s3.CompleteMultipartUploadInput{Bucket: aws.String("b"), Key: aws.String("o"), UploadId: aws.String("u")})
+	rt.Cover("assembled")
+	rt.Assert(code == s3err.ErrNone, "complete-ok")
+	rt.Assert(len(verifMade) == len(wants), "every-chunk-of-every-part-and-nothing-else")
+	for i := 0; i < len(wants) && i < len(verifMade); i++ {
+		g := verifMade[i]
+		rt.Assert(rt.And(g.FileId == wants[i].fid, rt.And(g.Offset == wants[i].offset, g.Size == wants[i].size)), "chunk-lands-at-part-start-plus-offset-in-part")
+	}
+}
